@@ -217,21 +217,25 @@ structure LoopOut where
   myext : List (Nat × Nat)            -- per strand [exterior loop at start, exterior loop at end]
 deriving Repr, DecidableEq
 
+/-- the outer loop of `make_loop_index` over strands of *linear* partners; `off` is the linear index of the
+    first position of the current strand, `ext` the set `exterior` (in insertion order), `my` the list `myext` -/
+def loopScan (components : Bool) : List (List (Option Nat)) → Nat → LoopSt → List Nat → List (Nat × Nat) →
+    Except Err (List Nat × List (Nat × Nat) × LoopSt)
+  | [], _, s, ext, my => .ok (ext, my, s)
+  | strand :: rest, off, s, ext, my =>
+    let start := s.cl
+    let s' := (strand.zipIdx).foldl (fun s (q : Option Nat × Nat) => loopStep s (off + q.2) q.1) s
+    let my' := my ++ [(start, s'.cl)]
+    if ext.contains s'.cl then
+      if components then loopScan components rest (off + strand.length) s' ext my'
+      else .error .secondaryStructure      -- 'Complexes not connected.'
+    else loopScan components rest (off + strand.length) s' (ext ++ [s'.cl]) my'
+
 /-- `make_loop_index(pt, components)`; the pair table is first re-indexed to linear positions -/
 def makeLoopIndex (pt : PairTable) (components : Bool := false) : Except Err LoopOut :=
   let lens := pt.map List.length
   let lin : List (List (Option Nat)) := pt.map (fun s => s.map (fun o => o.map (fromLocus lens)))
-  let rec go : List (List (Option Nat)) → Nat → LoopSt → List Nat → List (Nat × Nat) → Except Err (List Nat × List (Nat × Nat) × LoopSt)
-    | [], _, s, ext, my => .ok (ext, my, s)
-    | strand :: rest, off, s, ext, my =>
-      let start := s.cl
-      let s' := (strand.zipIdx).foldl (fun s (q : Option Nat × Nat) => loopStep s (off + q.2) q.1) s
-      let my' := my ++ [(start, s'.cl)]
-      if ext.contains s'.cl then
-        if components then go rest (off + strand.length) s' ext my'
-        else .error .secondaryStructure      -- 'Complexes not connected.'
-      else go rest (off + strand.length) s' (ext ++ [s'.cl]) my'
-  match go lin 0 {} [] [] with
+  match loopScan components lin 0 {} [] [] with
   | .error e => .error e
   | .ok (ext, my, s) => .ok { loopIndex := reshape lens s.loopIndex, exterior := ext, myext := my }
 
